@@ -1,6 +1,6 @@
 /-
   PINS of property C11: the decision tokens of every item the property is anchored in
-  (properties.jsonl `anchors` + tools/anchor_extra.json), as they were in /repo at b30ed81 when the
+  (properties.jsonl `anchors` + tools/anchor_extra.json), as they were in /repo at 32de816 when the
   model was validated against the source.  Written by tools/pin_anchors.py; the right-hand sides are
   compared by the kernel with lean/Chrono/Extracted/Anchors.lean, which tools/extractors/anchors.py
   regenerates from /repo's working tree on every check.  A theorem that fails here means: anchored
@@ -9,6 +9,10 @@
 import Chrono.Extracted.Anchors
 namespace Chrono.Pins.C11
 open Chrono.Extracted.Anchors
+
+/-- src/datetime/mod.rs:fn format_with_items -/
+theorem src_datetime_mod_rs_fn_format_with_items : C11_src_datetime_mod_rs_fn_format_with_items =
+    ["<", "I", "B", ">", "&", "self", "v1", "I", "->", "DelayedFormat", "<", "I", ">", "I", "Iterator", "<", "Item", "B", ">", "+", "Clone", "B", "Borrow", "<", "Item", "<", ">>", "v2", "self", "overflowing_naive_local(", "DelayedFormat", "new_with_offset(", "Some(", "v2", "date(", "Some(", "v2", "time(", "&", "self", "v3", "v1"] := by decide +kernel
 
 /-- src/datetime/mod.rs:fn parse_from_rfc2822 -/
 theorem src_datetime_mod_rs_fn_parse_from_rfc2822 : C11_src_datetime_mod_rs_fn_parse_from_rfc2822 =
@@ -77,6 +81,10 @@ theorem callee_src_datetime_mod_rs_fn_from_naive_utc_and_offset : C11_callee_src
 /-- callee src/datetime/mod.rs:fn overflowing_naive_local -/
 theorem callee_src_datetime_mod_rs_fn_overflowing_naive_local : C11_callee_src_datetime_mod_rs_fn_overflowing_naive_local =
     ["&", "self", "->", "NaiveDateTime", "self", "v1", "overflowing_add_offset(", "self", "v2", "fix("] := by decide +kernel
+
+/-- callee src/format/formatting.rs:fn new_with_offset -/
+theorem callee_src_format_formatting_rs_fn_new_with_offset : C11_callee_src_format_formatting_rs_fn_new_with_offset =
+    ["<", "Off", ">", "v1", "Option", "<", "NaiveDate", ">", "v2", "Option", "<", "NaiveTime", ">", "v3", "&", "Off", "v4", "I", "->", "DelayedFormat", "<", "I", ">", "Off", "Offset", "+", "Display", "v5", "v3", "to_string(", "v3", "fix(", "DelayedFormat", "v1", "v2", "v6", "Some(", "v5", "v4", "v7", "default_locale("] := by decide +kernel
 
 /-- callee src/format/formatting.rs:fn write_hundreds -/
 theorem callee_src_format_formatting_rs_fn_write_hundreds : C11_callee_src_format_formatting_rs_fn_write_hundreds =
